@@ -24,6 +24,8 @@ Decides:
  H style reset     in the BlockStart / BlockEnd arms of render_html and render_markdown the style reset precedes every other write of the
                     arm (inline tags are closed before a block tag opens: `<b>title</b><div>`, never `<b>title<div></b>`).
  K doc writers     see C12.
+ E2b request args   the Spaces rule (arguments of requests, e.g. `.SS <group title>`) never copies a backslash (found and fixed 8661d4e: it did).
+ G text arm        while text is rendered the only structural tag written is `<br>`.
 Does not decide: that the byte loop is a complete roff escaper for every input; markdown well-formedness."""
 import re
 from core import *
